@@ -82,6 +82,7 @@ pub enum FsOp {
     Rename,
     Unlink,
     Stat,
+    SetLen,
     Lock,
     Unlock,
     Env,
@@ -714,6 +715,26 @@ impl Backend for SimBackend {
                 }
             },
             || Err(errno(simfs::EIO)),
+        )
+    }
+
+    fn set_len(&self, fd: u64, len: u64) -> io::Result<()> {
+        with_run(
+            |r| {
+                r.point(PKind::Fs);
+                let mut w = r.world.lock().unwrap();
+                match w.fs.set_len(fd, len) {
+                    Ok(k) => {
+                        w.push(FsOp::SetLen, k, len as i64, 0);
+                        Ok(())
+                    }
+                    Err(e) => {
+                        w.push(FsOp::SetLen, String::new(), len as i64, e);
+                        Err(errno(e))
+                    }
+                }
+            },
+            || Err(errno(simfs::EBADF)),
         )
     }
 
